@@ -263,6 +263,24 @@ impl VTreeManager {
         ensures b == (l.0 < r.0),
 //%% end
 }
+impl VTreeManager {
+//%% extract src/repr/vtree.rs :: impl VTreeManager :: fn is_prime_var
+//%% @ret r
+//%% @spec
+        requires a.0 < self.vtree_index@.len(), b.0 < self.vtree_index@.len(),
+        ensures r == (self.vtree_index@[a.0 as int] < self.vtree_index@[b.0 as int]),
+//%% end
+}
+/// for a well-formed manager: variable a is "prime to" variable b exactly when a's leaf comes before b's leaf in the in-order listing
+pub proof fn lemma_prime_var(m: VTreeManager, i: int, j: int)
+    requires
+        mgr_ok(m), 0 <= i < inorder(m.tree).len(), 0 <= j < inorder(m.tree).len(),
+        inorder(m.tree)[i] is Leaf, inorder(m.tree)[j] is Leaf,
+    ensures
+        (m.vtree_index@[inorder(m.tree)[i]->Leaf_0.0 as int] < m.vtree_index@[inorder(m.tree)[j]->Leaf_0.0 as int]) == (i < j),
+{
+    lemma_mgr_leaf(m, i); lemma_mgr_leaf(m, j);
+}
 /// what the tables mean: the index of a variable is the in-order position of its leaf, and looking that index up gives the leaf back
 pub proof fn lemma_mgr_leaf(m: VTreeManager, j: int)
     requires mgr_ok(m), 0 <= j < inorder(m.tree).len(), inorder(m.tree)[j] is Leaf,
